@@ -28,6 +28,8 @@ type c18n struct {
 	mand     bool   // leaf, choice
 	presence bool   // container
 	def      string // leaf default value, choice default case
+	sym      bool   // leaf whose value is a symbolic letter from {p,q} (unique leaves)
+	gen      int    // list: most entries generated (0 = 3)
 	min, max int    // leaf-list, list (max 0 = unbounded)
 	unique   []string
 	kids     []*c18n
@@ -41,6 +43,7 @@ type c18d struct {
 }
 
 func c18LD(name, def string) *c18n { return &c18n{kind: c18Leaf, name: name, def: def} }
+func c18LS(name string) *c18n      { return &c18n{kind: c18Leaf, name: name, sym: true} }
 func c18ChD(name, def string, cases ...*c18n) *c18n {
 	return &c18n{kind: c18Choice, name: name, def: def, kids: cases}
 }
@@ -83,7 +86,13 @@ var c18Shapes = []*c18n{
 		c18NP("n8", c18NP("n9", c18LLn("ll", 1, 2), c18Ls("lst", 1, 2, []string{"c", "x"},
 			c18NP("c", c18L("x", false)), c18L("me", true)))),
 		c18PC("pc2", c18LLn("ll2", 2, 0))),
+	// unique leaves next to siblings whose names order differently as text and as
+	// numbers (p2 / p10), directly in the entry and below a container
+	c18NP("top", c18Two(c18Ls("ports", 0, 0, []string{"p10"}, c18L("p2", false), c18LS("p10"), c18L("p1", false)))),
+	c18NP("top", c18Two(c18Ls("vrfs", 0, 0, []string{"cfg", "v10"}, c18NP("cfg", c18L("v9", false), c18LS("v10"), c18L("v100", false))))),
 }
+
+func c18Two(l *c18n) *c18n { l.gen = 2; return l }
 
 // shapes for default decoration: defaults at depth, default cases at depth
 var c18DefShapes = []*c18n{
@@ -161,7 +170,7 @@ func c18Gen(children []*c18n, tag string) []*c18d {
 		case c18Leaf:
 			if vrt.Bool(t) {
 				v := "v"
-				if c.name == "x" {
+				if c.name == "x" || c.sym {
 					v = lowerPQ(t + ".val") // the leaf of the unique path: symbolic value from {p,q}
 				}
 				out = append(out, &c18d{spec: c, val: v})
@@ -171,8 +180,12 @@ func c18Gen(children []*c18n, tag string) []*c18d {
 				out = append(out, &c18d{spec: c, count: n})
 			}
 		case c18Lst:
-			// 0..3 entries, each an existing parent of its own children
-			if n := vrt.Choice(t, 4); n > 0 {
+			// 0..3 entries (or 0..gen), each an existing parent of its own children
+			most := 3
+			if c.gen > 0 {
+				most = c.gen
+			}
+			if n := vrt.Choice(t, most+1); n > 0 {
 				l := &c18d{spec: c}
 				for e := 0; e < n; e++ {
 					l.kids = append(l.kids, &c18d{spec: c, count: e + 1, kids: c18Gen(c.kids, t+"#"+string(rune('1'+e)))})
